@@ -37,11 +37,23 @@ CLAIMED = {
         "Trusted: reference DFS and Bellman-Ford.",
         "DESIGN.md section 5 C05",
     ),
+    "C06": (
+        "property-based testing: differential between run-alone, batch and permuted batch as order-free multisets + reference model of the configured input pipeline for response counts; enumeration of the (batch size, parallelism) plane",
+        "Real applications are built from generated files in 7 plugin/search configurations and driven with batches mixing valid, failing and grid-search queries under two parallelism values, a permutation, injected per-query delays and both persistence policies; responses are compared as canonical multisets with the run-alone (parallelism 1, one query per call) reference; the load-balancing partition is checked directly for arbitrary weights. All (size 1-24) x (parallelism 1-16) pairs are enumerated with a simple mix.",
+        "Trusted: the pipeline reference model, canonicalisation (volatile clock fields removed, floats at 11 digits). The thread schedule is perturbed, not enumerated (see DESIGN.md section 9). Listed finding: a failing grid sibling drops its family.",
+        "DESIGN.md section 5 C06",
+    ),
     "C07": (
         "property-based testing: direct calls with generated cost configurations against a reference cost formula + metamorphic relations",
         "200k+ generated (weights, vehicle rates incl. nested combined/offset, network rates, aggregation, state pairs incl. zero and negative changes) per quick run; traversal/access costs must be finite and > 0, estimates finite and >= 0, equal to the reference weighted sum or the floor under sum aggregation; metamorphic: linear in weights, zero-weight features and other edges' surcharges are ignored; EdgeTraversal totals through forward/reverse traversal with harness models applying exactly the generated state changes.",
         "Trusted: the reference formula (direct transcription of the statement). Magnitudes bounded so products cannot overflow f64.",
         "DESIGN.md section 5 C07",
+    ),
+    "C12": (
+        "property-based testing / structural fuzzing of query batches: grammar-based JSON generation and mutation of valid queries against 8 real application configurations, with panic capture, watchdog and a JSON-level reference of the input pipeline",
+        "Batches of 0-6 values (arbitrary JSON and mutated valid queries: deleted/retyped fields, 24 odd values, degenerate grid sections, odd weights/k/weight factors/model names, identical origin and destination) are run alone and as a batch; oracles: no panic (hook + catch_unwind across rayon workers), no unbounded run (per-case watchdog, re-run in a fresh process before reporting), Ok from run(), response count from the reference pipeline, object responses that echo their request, batch multiset = run-alone multiset.",
+        "Trusted: the JSON-level pipeline reference; RLIMIT_AS 24 GiB and a 20 s per-case watchdog (typical case < 5 ms). Listed finding: a failing grid sibling drops its family.",
+        "DESIGN.md section 5 C12",
     ),
     "C13": (
         "property-based testing: validity predicates over k-shortest-path results (count, least-cost first route, loop-free walks, accumulation, distinctness, own cosine similarity) + metamorphic accept-all >= threshold; Yen executed in a killable helper process",
@@ -73,6 +85,12 @@ CLAIMED = {
         "Trusted: the reference product. Colliding overlay keys are not generated (the statement defines no overlay order).",
         "DESIGN.md section 5 C17",
     ),
+    "C08": (
+        "model-based property testing: generated edge histories through the real EnergyTraversalModel against a reference energy / state-of-charge / PHEV-mode / LRU-cache model",
+        "Histories of 1-12 edges (incl. steep downhill), three vehicle types over the bundled models (wrapped in the interpolation model for continuity), battery 0.05-100 kWh, valid and invalid starting charges, all unit configurations of time model / energy service / grade table, real-world adjustment, prediction cache with a reference LRU; per-edge energy, clamped charge update, PHEV mode by charge at entry, additivity, best-case estimate and starting-charge validation are checked.",
+        "Trusted: the bundled model files as data; the reference formulas transcribed from the statement. Cache keys on a rounding boundary are not judged.",
+        "DESIGN.md section 5 C08",
+    ),
     "C09": (
         "property-based testing + exhaustive enumeration of the unit dimension against SI reference factors",
         "All 77 ordered unit pairs and all constructor unit combinations are enumerated; magnitudes are generated (log-uniform, signed). Oracles: identity, linearity, 0.1 % round trip, SI physical factor (own table), definitional formulas for Time/Speed/Energy::create and their rejection guards.",
@@ -96,6 +114,12 @@ CLAIMED = {
         "Every directed graph with self loops on 1-4 vertices is enumerated (thorough: plus all loop-free digraphs on 5 vertices); random multigraphs, rings of rings and long chains are generated. The returned components must be a partition into exactly the mutual-reachability classes; the largest component must have maximal size.",
         "Trusted: the harness's iterative Tarjan, itself cross-checked by n BFS runs for n <= 64.",
         "DESIGN.md section 5 C18",
+    ),
+    "C19": (
+        "property-based testing: file contents after run() parsed by own JSON-lines / CSV readers and compared as multisets with the responses produced without a sink; information-preservation differential",
+        "Batches of 1-60 queries (successes, search errors, input-plugin errors, grid siblings) with records padded up to 200 KiB, parallelism 1-16, both persistence policies, four flush rates, JSON lines or CSV mappings (paths, sums, optionals, failing paths, sorted or not) and 1-3 appending runs; record counts, parseability, multiset equality, single header, row width, cell values by an independent mapping evaluator, and no loss of information in the responses handed back.",
+        "Trusted: own CSV cell splitter and mapping evaluator. The interleaving space is sampled, not enumerated.",
+        "DESIGN.md section 5 C19",
     ),
     "C20": (
         "property-based testing: one search result rendered in all five formats, decoded by own WKT/WKB/GeoJSON readers and compared with the edge sequence and a provenance-encoding geometry table",
